@@ -324,6 +324,10 @@ func genBodies(c *ex.Ctx, d *ast.File) {
 		{"mouseHandler", "mouseEnter", "mouseEnter"},
 		{"mouseHandler", "update", "mouseUpdate"},
 		{"App", "handleCommand", "handleCommand"},
+		{"", "hitTest", "hitTest"},
+		{"SubSurface", "containsPoint", "containsPoint"},
+		{"focusHandler", "childHasFocus", "childHasFocus"},
+		{"focusHandler", "findPath", "findPath"},
 	}
 	for _, m := range methods {
 		fd := ex.FindFunc(d, m.recv, m.goName)
